@@ -448,6 +448,39 @@ spec:
   - match: [{port: 443, sniHosts: [b.example.com, x.example.com]}]
     route: [{destination: {host: b.example.com, port: {number: 443}, subset: v1}}]
 `},
+	{name: "vs-tls-sni-of-second-service", kind: "VS", shape: "tls-sni-2nd-service", yaml: hdrSE + `
+metadata: {name: t}
+spec:
+  hosts: [t.example.com]
+  resolution: NONE
+  location: MESH_EXTERNAL
+  ports:
+  - {number: 443, name: tls, protocol: TLS}
+  - {number: 9000, name: tcp, protocol: TCP}
+---
+` + hdrVS + `
+metadata: {name: vs-tls-t}
+spec:
+  hosts: [t.example.com, x.example.com]
+  tls:
+  - match: [{port: 443, sniHosts: [t.example.com, x.example.com]}]
+    route: [{destination: {host: t.example.com, port: {number: 443}}}]
+  tcp:
+  - match: [{port: 9000, destinationSubnets: [10.1.0.0/16, 10.5.0.0/16]}]
+    route: [{destination: {host: t.example.com, port: {number: 9000}}}]
+`},
+	{name: "vs-repeated-match-values", kind: "VS", shape: "repeated-values", yaml: hdrVS + `
+metadata: {name: vs-rep}
+spec:
+  hosts: [b.example.com]
+  gateways: [istio-system/gw-pass, istio-system/gw-tcp, mesh]
+  tls:
+  - match: [{port: 443, sniHosts: [b.example.com, b.example.com]}]
+    route: [{destination: {host: b.example.com, port: {number: 443}}}]
+  tcp:
+  - match: [{port: 9000, destinationSubnets: [10.0.0.0/8, 10.0.0.1/8]}]
+    route: [{destination: {host: b.example.com, port: {number: 9000}}}]
+`},
 	{name: "vs-tcp-overlapping-subnets", kind: "VS", core: true, shape: "tcp-subnets", yaml: hdrVS + `
 metadata: {name: vs-tcp}
 spec:
